@@ -99,6 +99,14 @@ pub fn addr_pool(n: usize) -> Vec<IpAddr> {
         .map(|i| {
             if i % 5 == 4 {
                 IpAddr::V6(Ipv6Addr::new(0x2001, 0xdb8, 0, 0, 0, 0, (i >> 16) as u16, i as u16))
+            } else if i % 5 == 2 {
+                // an IPv4-mapped IPv6 address (what a dual-stack socket reports for an IPv4 peer):
+                // a different key than the plain IPv4 address, and one like any other
+                IpAddr::V6(Ipv4Addr::new(10, (i >> 16) as u8, (i >> 8) as u8, i as u8).to_ipv6_mapped())
+            } else if i % 5 == 3 && i >= 5 {
+                // the plain IPv4 form of the mapped address two places back
+                let j = i - 1;
+                IpAddr::V4(Ipv4Addr::new(10, (j >> 16) as u8, (j >> 8) as u8, j as u8))
             } else {
                 IpAddr::V4(Ipv4Addr::new(10, (i >> 16) as u8, (i >> 8) as u8, i as u8))
             }
